@@ -1,0 +1,16 @@
+//go:build verif
+// +build verif
+
+package concurrencylimiter
+
+import "context"
+
+// VerifLen reports len and cap of the channel of the limiter attached to ctx
+// (ok is false when ctx carries no limiter). Only built with the verif tag.
+func VerifLen(ctx context.Context) (n int, limit int, ok bool) {
+	l, ok := ctx.Value(limiterKey{}).(*limiter)
+	if !ok {
+		return 0, 0, false
+	}
+	return len(l.ch), cap(l.ch), true
+}
